@@ -1,4 +1,4 @@
-// C20 correspondence harness, part 2: std::list / std::forward_list with momo's pool allocator against twins with
+// C20 correspondence harness (std::list), part 2: std::list / std::forward_list with momo's pool allocator against twins with
 // std::allocator and against the Lean model (allocator level and container level).  See c20_alloc.h / c20_world.h.
 #include "c20_world.h"
 
@@ -8,9 +8,9 @@ int main(int argc, char** argv)
 {
 	Ctx c = parseArgs(argc, argv);
 	Rng rng(c.seed * 0x1000 + 21);
-	arena().init(c); arena().rng = &rng;
-	const unsigned steps = c.thorough ? 1200 : 400;
-	const unsigned rounds = c.thorough ? 6 : 2;
+	arena().init(c); arena().rng = &rng; installCrashReporter();
+	const unsigned steps = c.thorough ? 1500 : 500;
+	const unsigned rounds = c.thorough ? 12 : 4;
 	for (unsigned round = 0; round < rounds; ++round) {
 		std::string r = fmt("r%u_", round);
 		runTraced<KList<int>, Cfg<32, 16>>(c, rng, r + "list_int_a", steps);
@@ -21,14 +21,8 @@ int main(int argc, char** argv)
 		runTraced<KList<std::string>, Cfg<8, 16>>(c, rng, r + "list_str_a", steps);
 		runTraced<KList<std::string>, Cfg<1, 16>>(c, rng, r + "list_str_b", steps);
 		runTraced<KList<Al16>, Cfg<21, 4>>(c, rng, r + "list_al16", steps);
-		runTraced<KFwd<int>, Cfg<32, 0>>(c, rng, r + "fwd_int_a", steps);
-		runTraced<KFwd<int>, Cfg<6, 16>>(c, rng, r + "fwd_int_b", steps);
-		runTraced<KFwd<std::string>, Cfg<7, 1>>(c, rng, r + "fwd_str_a", steps);
-		runTraced<KFwd<Big>, Cfg<1, 2>>(c, rng, r + "fwd_big_a", steps);
 		// the momo allocator itself, without the reporting shell (default parameters and two others)
 		runPlain<KList<int>, Cfg<momo::MemPoolConst::defaultBlockCount, momo::MemPoolConst::defaultCachedFreeBlockCount>>(c, rng, r + "list_int", steps);
-		runPlain<KList<std::string>, Cfg<4, 0>>(c, rng, r + "list_str", steps);
-		runPlain<KFwd<int>, Cfg<1, 16>>(c, rng, r + "fwd_int", steps);
 	}
 	dumpTracerStats(c);
 	return c.finish();
